@@ -287,13 +287,26 @@ def _tuple_handback(targets, rets, argname, param):
 def expand_call(call, helper, kind, targets, uid, self_arg=None, dead=()):
     """Statements replacing the statement that contains `call` (kind: 'assign' | 'return' | 'expr')."""
     a = helper.args
-    if a.vararg or a.kwonlyargs:
+    if a.kwonlyargs:
         return None
     params = [x.arg for x in a.posonlyargs + a.args]
     kwname = a.kwarg.arg if a.kwarg else None
     args = list(call.args)
     if self_arg is not None:
         args = [self_arg] + args
+    vaname, va_extra = (a.vararg.arg if a.vararg else None), []
+    if vaname is not None:
+        # *args of the helper: only when it is passed on whole (`f(*args)`); the extra positional arguments are spliced there
+        if any(isinstance(x, ast.Starred) for x in args) or len(args) < len(params):
+            return None
+        for n_ in [x for s_ in _strip_doc(helper.body) for x in ast.walk(s_)]:
+            if isinstance(n_, ast.Name) and n_.id == vaname:
+                par = getattr(n_, '_parent', None)
+                gp = getattr(par, '_parent', None)
+                if not (isinstance(par, ast.Starred) and isinstance(gp, ast.Call) and any(x is par for x in gp.args)):
+                    return None
+        va_extra = args[len(params):]
+        args = args[:len(params)]
     if any(isinstance(x, ast.Starred) for x in args) or any(k.arg is None for k in call.keywords):
         return None
     bound = {}
@@ -342,7 +355,8 @@ def expand_call(call, helper, kind, targets, uid, self_arg=None, dead=()):
             mapping[p] = x.id
         elif isinstance(x, ast.Constant) and p not in stores:
             mapping[p] = x
-        elif isinstance(x, ast.Attribute) and isinstance(x.value, ast.Name) and p not in stores and x.value.id[:1].isupper():
+        elif isinstance(x, ast.Attribute) and isinstance(x.value, ast.Name) and p not in stores and (
+                x.value.id[:1].isupper() or x.value.id in ('operator', 'math', 'np', 'numpy', 'itertools', 'functools', 'qv')):
             mapping[p] = x          # e.g. an unbound method PCBO.add_constraint_eq_zero passed as a callback
         else:
             nm = '%s__%s%d' % (p, helper.name.strip('_'), uid)
@@ -383,6 +397,27 @@ def expand_call(call, helper, kind, targets, uid, self_arg=None, dead=()):
                         else:
                             newk.append(k_)
                     c_.keywords = newk
+    if vaname is not None:
+        # the extra arguments are evaluated at the call, before the body runs: anything but a plain name / constant gets a name
+        ve = []
+        for k_, e in enumerate(va_extra):
+            if isinstance(e, (ast.Name, ast.Constant)):
+                ve.append(e)
+            else:
+                nm_ = '%s%d__%s%d' % (vaname, k_, helper.name.strip('_'), uid)
+                pre.append(ast.Assign(targets=[ast.Name(id=nm_, ctx=ast.Store())], value=copy.deepcopy(e)))
+                ve.append(ast.Name(id=nm_, ctx=ast.Load()))
+        va_extra = ve
+        for s_ in body:
+            for c_ in ast.walk(s_):
+                if isinstance(c_, ast.Call):
+                    na = []
+                    for x in c_.args:
+                        if isinstance(x, ast.Starred) and isinstance(x.value, ast.Name) and x.value.id in (vaname, mapping.get(vaname)):
+                            na += [_copy(e) for e in va_extra]
+                        else:
+                            na.append(x)
+                    c_.args = na
     for s_ in body:
         _bind_unbound_calls(s_, self_arg.id if isinstance(self_arg, ast.Name) else None)
     if any(isinstance(v_, ast.Constant) for v_ in mapping.values()):
